@@ -91,6 +91,16 @@ def handle (stdin stdout : IO.FS.Stream) (args : List String) : IO String := do
       let (out, log) ← runIOLog stdin stdout (collect (geneGen close 0) n) []
       pure (s!"ok {showGenome (out.map encP)}" ++ (if ltAgrees close log then "" else " native-mismatch"))
     | _, _ => pure "bad-request"
+  | ["closecut", n] =>
+    -- the default close probability of a gene generator over `n` instructions, as the number of f32 grid draws
+    -- `k·2⁻²⁴` that are below it (what the probability does; independent of how the value is stored)
+    match n.toNat? with
+    | some n => pure s!"{F32.cutoff (uniformCloseProbability n)}"
+    | none => pure "bad-request"
+  | ["cut", bits] =>
+    match bits.toNat? with
+    | some b => pure s!"{F32.cutoff b}"
+    | none => pure "bad-request"
   | ["oolrate", n] =>
     -- the rate `WithOneOverLength` derives for a genome of `n` genes (bits of fl32(1/fl32(n)))
     match n.toNat? with
